@@ -266,6 +266,11 @@ func (k *c37) check(o *stepObs) {
 			same = true
 			x.label("set:keyword-case-folded")
 		}
+		if !same && has && c.tag != nil && strings.TrimSpace(got) == strings.TrimSpace(want) {
+			// block strings cannot carry leading / trailing white space: left open
+			same = true
+			x.label("gray:block-string-trims-whitespace")
+		}
 		if !same {
 			x.fail(o.step, setValueSig(c, want, got, has), "%s: afterwards %s of %s is %q (present=%v), want %q\n%s", c, c.cell, c.elemID, got, has, want, o.ctx())
 		}
@@ -335,17 +340,29 @@ func (k *c37) check(o *stepObs) {
 			continue
 		}
 		// a board that starts from the addressed one sees the same edit, nothing else
-		if len(di.removed) > 0 {
+		var lostObjs []string
+		for _, m := range di.removed {
+			if !pi.els[m].edge {
+				lostObjs = append(lostObjs, m)
+			}
+		}
+		if di.removed = lostObjs; len(di.removed) > 0 {
 			x.fail(o.step, name+":element-lost@inheriting-board", "%s: board %v lost %v\n%s", c, x.boards[i].path, idsPre(pi, di.removed), o.ctx())
 			return
 		}
 		for _, a := range di.added {
+			if pj.els[a].edge {
+				continue
+			}
 			if _, ok := post.byID[strings.ToLower(pj.els[a].absID)]; !ok {
 				x.fail(o.step, name+":unexpected-new-element@inheriting-board", "%s: board %v got %s\n%s", c, x.boards[i].path, pj.els[a].absID, o.ctx())
 				return
 			}
 		}
 		for m, ch := range di.changed {
+			if pi.els[m].edge {
+				continue // connections of an inheriting board are renumbered by edits of the base: not compared
+			}
 			if (c.kind == opSetLabel || c.kind == opSetAttr) && strings.EqualFold(pi.els[m].absID, c.elemID) {
 				if bad := only(ch, allowedSetCells(c.cell)); len(bad) == 0 {
 					continue
@@ -528,7 +545,9 @@ func (k *c38) check(o *stepObs) {
 			}
 			if bad := only(ch, allowed); len(bad) > 0 {
 				what := "other-element-changed"
-				if kids[m] && bad[0] == "@id" {
+				if m == T.parent && !strings.HasPrefix(bad[0], "@") {
+					what = "attribute-moved-to-parent:" + cellClass(bad[0])
+				} else if kids[m] && bad[0] == "@id" {
 					what = "child-renamed-without-collision"
 				} else if pre.under(m, T.m) || e.edge && (pre.under(e.src, T.m) || pre.under(e.dst, T.m)) {
 					what = "descendant-changed:" + strings.TrimPrefix(cellClass(bad[0]), "@")
@@ -586,6 +605,9 @@ func (k *c38) check(o *stepObs) {
 		if had {
 			x.label("delete-attr:was-set")
 			if v, still := post.els[T.m].cells[c.cell]; still {
+				if strings.ContainsAny(T.id, "\"'") {
+					suffix = "@quoted-name"
+				}
 				x.fail(o.step, "delete-attr:not-reset:"+cellClass(c.cell)+suffix, "%s: %s is still %q\n%s", c, c.cell, v, o.ctx())
 				return
 			}
@@ -595,6 +617,10 @@ func (k *c38) check(o *stepObs) {
 				what := "other-element-changed"
 				if m == T.m {
 					what = cellClass(c.cell) + ":other-cell-of-target-changed:" + cellClass(bad[0])
+				} else if bad[0] == c.cell && !T.edge && pre.under(m, T.m) {
+					what = "same-attribute-of-descendant-reset"
+				} else if bad[0] == c.cell && T.edge {
+					what = "same-attribute-of-other-connection-reset"
 				}
 				x.fail(o.step, "delete-attr:"+what+suffix, "%s: %s (%s) changed %v\n%s", c, m, pre.els[m].absID, bad, o.ctx())
 				return
@@ -889,6 +915,9 @@ func (k *c40) check(o *stepObs) {
 				what = "unpredicted-id-change"
 			} else if b.absID == a.absID {
 				what = "predicted-change-did-not-happen"
+			}
+			if c.kind == opRename && quoteName(c.newName) != c.newName {
+				name += "@name-needs-quotes"
 			}
 			x.fail(o.step, "delta-mismatch:"+what+":"+kind+":"+name, "%s: %s %s had ID %q, deltas predict %q, the edit gives %q\ndeltas: %v\n%s", c, kind, m, a.absID, want, b.absID, o.deltas, o.ctx())
 			return
